@@ -137,6 +137,8 @@ COMBINATORS = {
     'core::option::Option::and_then': ('Option', {'Some': 'call', 'None': 'none'}),
     'core::option::Option::unwrap_or_else': ('Option', {'Some': 'payload', 'None': 'call0'}),
     'core::option::Option::ok_or_else': ('Option', {'Some': 'rewrap:Ok', 'None': 'wrap0:Err'}),
+    'core::option::Option::map_or': ('Option', {'Some': 'call', 'None': 'default'}),
+    'core::result::Result::map_or': ('Result', {'Ok': 'call', 'Err': 'default'}),
     'core::result::Result::map': ('Result', {'Ok': 'wrap:Ok', 'Err': 'rewrap:Err'}),
     'core::result::Result::and_then': ('Result', {'Ok': 'call', 'Err': 'rewrap:Err'}),
     'core::result::Result::map_err': ('Result', {'Ok': 'rewrap:Ok', 'Err': 'wrap:Err'}),
@@ -206,9 +208,10 @@ def expand_combinators(records, strip):
                 continue
             cp = _callee_path(t)
             comb = COMBINATORS.get(_sg(cp)) if cp else None
-            if comb is None or len(t['args']) != 2:
+            if comb is None or len(t['args']) != (3 if 'default' in comb[1].values() else 2):
                 continue
-            scr, clo = plain_local(t['args'][0]), plain_local(t['args'][1])
+            scr, clo = plain_local(t['args'][0]), plain_local(t['args'][-1])
+            default_op = t['args'][1] if len(t['args']) == 3 else None
             if scr is None or clo is None:
                 continue
             cty = r['locals'][clo['l']]
@@ -258,6 +261,8 @@ def expand_combinators(records, strip):
                 ab = r['blocks'][arm_blocks[vn]]
                 if what == 'none':
                     ab['s'].append({'k': 'assign', 'lhs': dest, 'rv': agg('None', []), 'sp': sp, 'exp': exp})
+                elif what == 'default':
+                    ab['s'].append({'k': 'assign', 'lhs': dest, 'rv': {'k': 'use', 'o': default_op}, 'sp': sp, 'exp': exp})
                 elif what == 'payload':
                     ab['s'].append({'k': 'assign', 'lhs': dest, 'rv': {'k': 'use', 'o': {'m': payload_place(vn)}}, 'sp': sp, 'exp': exp})
                 elif what.startswith('rewrap:'):
